@@ -1,17 +1,9 @@
-"""Per-property configuration of ./check (generators, Lean module, harness models, texts)."""
-CRYPTO = 'cryptographic primitives are assumptions (hypotheses of theorems), never axioms'
-PROPS = {
- 'C08': {
-  'gens': ['gen_consts.py', 'gen_timing.py'],
-  'props_module': 'LdkModel.Props.C08',
-  'models': ['c08'],
-  'level_text': 'Lean 4 theorems over decision predicates translated from the Rust source on every run (every height/expiry/delta, by omega over regenerated constants), plus a differential run of the real functions against the model driver on boundary sweeps',
-  'level_note': 'Trusted: Lean kernel; axioms {propext, Classical.choice, Quot.sound}; the translators tools/gen_consts.py and gen_timing.py; the finite correspondence sample. Race theorems assume the library\'s stated confirmation bounds. End-to-end broadcast heights in a running node are validated by scenario models, not proved.',
-  'modelled': 'decision predicates are TRANSLATED from the Rust bodies each run (gen_timing.py); race timelines (Model/Timing.lean) are hand-written compositions of them',
-  'partial': 'end-to-end broadcast heights in a running node (monitor + manager glue) are validated by the scenario models, not proved; last_moment_onchain_claim_partial needs a responsive upstream peer',
-  'assumptions': ['blocks/transactions confirm within MAX_BLOCKS_FOR_CONF and a peer update completes within LATENCY_GRACE_PERIOD_BLOCKS (hypotheses d1,d2 ≤ MAX_BLOCKS_FOR_CONF of the race theorems)',
-                  'nLockTime=N transactions are minable from block N+1 (consensus rule, stated as earliestTimeoutConf)'],
- },
-}
-
-NOT_CLAIMED = {}
+"""Per-property configuration: one file tools/cfg/CNN.py defining CFG (and optionally NOT_CLAIMED_REASON)."""
+import os, glob, importlib.util
+PROPS, NOT_CLAIMED = {}, {}
+for f in sorted(glob.glob(os.path.join(os.path.dirname(__file__), 'cfg', 'C*.py'))):
+    pid = os.path.basename(f)[:-3]
+    spec = importlib.util.spec_from_file_location('cfg_' + pid, f)
+    m = importlib.util.module_from_spec(spec); spec.loader.exec_module(m)
+    if getattr(m, 'CFG', None): PROPS[pid] = m.CFG
+    if getattr(m, 'NOT_CLAIMED_REASON', None): NOT_CLAIMED[pid] = m.NOT_CLAIMED_REASON
